@@ -193,6 +193,10 @@ def part_readers(ctx):
     ctx.sample({'part': 'readers', 'policy': cases[0]['pol'], 'text': cases[0]['texts'][1], 'python': gp[0][1], 'javascript': gj[0][1]})
 
 
+KNOWN_HEADER_PROBES = [('F3-paren', 'select (a1)', 'select (a1)'), ('F3-spaced-subscript', 'select a[ "x" ]', 'select a[ "x" ]'),
+                       ('F3-paren-attr', 'select (a.x), ((a2))', 'select (a.x), ((a2))')]
+
+
 def part_headers(ctx):
     r = ctx.rng
     cases = [c07.gen_case(r) for _ in range(1500 if ctx.tier == 'quick' else 30000)]
@@ -213,6 +217,17 @@ def part_headers(ctx):
                 corrupt=lambda e: dict(e, header=['CANARY']) if isinstance(e, dict) else 'CANARY')
     ctx.count(len(cases) * 2)
     ctx.stat('header_select_lists', len(cases))
+    # select lists on which the two derivations are KNOWN to differ (rbql-py reads the syntax tree, rbql-js the text of the item):
+    # recorded findings (known_findings.json F3), each identified by its exact input; reported as KNOWN-FINDING while it reproduces
+    probes = []
+    for fid, q, qjs in KNOWN_HEADER_PROBES:
+        probes.append({'q': q, 'qjs': qjs, 'A': [['1', '2'], ['3', '4']], 'B': None, 'hdrA': ['x', 'y'], 'hdrB': None, 'fid': fid, 'part': 'header_known'})
+    pp = lib.run_impl_py('c07', probes, shards=1)
+    pj = lib.run_impl_js('c07', probes, shards=1)
+    ctx.compare(probes, pp, pj, THEOREM, rel=same, classify=lambda c, e, g: c['fid'],
+                describe=lambda c, e, g: 'header: Python %r gives %s, JavaScript %r gives %s' % (c['q'], json.dumps(e), c['qjs'], json.dumps(g)),
+                corrupt=lambda e: dict(e, header=['CANARY']) if isinstance(e, dict) else 'CANARY')
+    ctx.count(len(probes) * 2)
     for c, e in zip(cases, exp):
         if e['header']:
             ctx.nontriv(('header', c['q']))
